@@ -432,6 +432,7 @@ def _one_layer_method(ctx: Ctx, c: ClassInfo, obj: ObjV, st0: State, meth: str, 
     ko_d, ki_d, ar_d, f_d = (st.norm(x.d) for x in (ko, ki, ar, nf))  # type: ignore[union-attr]
     inst = f"{meth}[{tag}]" if tag else meth
     it.pairings = []  # type: ignore[attr-defined]
+    it.selected = set()  # type: ignore[attr-defined]
     if kind == "inner":
         x_in = fresh_tensor((f_d, ar_d, B, ki_d))
         if x_in.lay is not None and ar_d.as_int() is not None and ar_d.as_int() > 1:
@@ -503,6 +504,18 @@ def _one_layer_method(ctx: Ctx, c: ClassInfo, obj: ObjV, st0: State, meth: str, 
         return [unres(rule, c.qualname, inst, "path limit", fi.loc)]
     except RecursionError:
         return [unres(rule, c.qualname, inst, "recursion limit", fi.loc)]
+    # R4u: every input of an inner layer is consumed (forward and sample)
+    n_in = ar_d.as_int()
+    if kind in ("inner", "sample_inner") and n_in is not None and n_in >= 2 and any(o.status == "ok" and o.nontrivial for o in out):
+        sel = {i for lab, i in it.selected if lab == "H"}  # type: ignore[attr-defined]
+        uinst = inst.replace(meth, meth + "-inputs", 1)
+        if "all" in sel or set(range(n_in)) <= sel:
+            out.append(ok("R4u", c.qualname, uinst, f"all {n_in} inputs are read", fi.loc))
+        elif sel:
+            missing = sorted(set(range(n_in)) - {i for i in sel if isinstance(i, int)})
+            out.append(viol("R4u", c.qualname, uinst, f"only the inputs {sorted(i for i in sel if isinstance(i, int))} of {n_in} are read: input(s) {missing} never reach the result (their variables are dropped from every product / sample)", fi.loc))
+        else:
+            out.append(unres("R4u", c.qualname, uinst, "how the arity axis is consumed was not derived", fi.loc))
     return _dedup(out)
 
 
@@ -793,4 +806,45 @@ def param_gather_contracts(ctx: Ctx) -> list[Ob]:
                 obs.append(ok("R4g", f.qualname, tag, fmt_shape(w), f.loc))
             else:
                 obs.append(viol("R4g", f.qualname, tag, f"the node is handed an operand of shape {fmt_shape(shp)}, its forward contract expects {fmt_shape(w)}", f.loc))
+    return _dedup(obs)
+
+
+def initializer_contracts(ctx: Ctx) -> list[Ob]:
+    """R4i -- the Dirichlet initialiser, interpreted on tensors of rank 2..4 (fold axis included) and
+    every ``dim``: it writes a tensor of exactly the destination's shape (for all sizes) whose simplex
+    axis -- the one the samples sum to one along -- sits at ``dim``."""
+    repo = ctx.repo
+    f = repo.func("cirkit.backend.torch.initializers.dirichlet_")
+    obs: list[Ob] = []
+    ranks = (2, 3, 4, 5) if ctx.tier == "thorough" else (2, 3, 4)
+    for r in ranks:
+        for dim in list(range(1, r)) + [-1]:
+            shape = tuple(Dim.sym(f"d{i}") for i in range(r))
+            inst = f"dirichlet[rank={r},dim={dim}]"
+            it = Interp(repo)
+            st = State()
+            try:
+                it.copies = []  # type: ignore[attr-defined]
+                res = list(it.call(f, [fresh_tensor(shape), FloatV(1.0)], {"dim": mkint(dim)}, st))
+                if not res:
+                    obs.append(unres("R4i", f.qualname, inst, "every path raises", f.loc))
+                for rv, s2 in res:
+                    if not isinstance(rv, TensorV):
+                        obs.append(unres("R4i", f.qualname, inst, f"result not resolved: {rv!r}", f.loc))
+                        continue
+                    k = dim % r
+                    src = it.copies[-1][1] if it.copies else None  # type: ignore[attr-defined]
+                    lay = src.lay[k] if src is not None and src.lay is not None and len(src.lay) == r else None
+                    if s2.norm_shape(rv.shape) != s2.norm_shape(shape):
+                        obs.append(viol("R4i", f.qualname, inst, f"writes {fmt_shape(s2.norm_shape(rv.shape))} into a tensor of shape {fmt_shape(shape)}", f.loc))
+                    elif lay is not None and [l for l, _ in lay] != ["simplex"]:
+                        obs.append(viol("R4i", f.qualname, inst, f"the axis the samples sum to one along ends up elsewhere: axis {k} holds {fmt_all([lay])[1:-1]}", f.loc))
+                    elif lay is None:
+                        obs.append(unres("R4i", f.qualname, inst, "position of the simplex axis not derived", f.loc))
+                    else:
+                        obs.append(ok("R4i", f.qualname, inst, f"{fmt_shape(shape)} with the simplex axis at {k}", f.loc))
+            except ShapeError as e:
+                obs.append(viol("R4i", f.qualname, inst, f"{e.msg} [{e.where}]", f.loc))
+            except (PathLimit, RecursionError):
+                obs.append(unres("R4i", f.qualname, inst, "path limit", f.loc))
     return _dedup(obs)
